@@ -105,9 +105,9 @@ struct Reg
       const double s2 = 1.4142135623730951;
       std::vector<std::shared_ptr<const Poly1>> p1 = {
         // x^2 - 2: J = 0 at x = 0 (degenerate zero gradient, rho undefined), roots +-sqrt 2
-        std::make_shared<const Poly1>("x2-2", std::array<double, 4>{-2, 0, 1, 0}, std::array<double, 2>{0, 0}, std::vector<double>{0, 1, s2, -3, 1e-8, 10, -1e3, s2 * (1 + 1e-12)}),
+        std::make_shared<const Poly1>("x2-2", std::array<double, 4>{-2, 0, 1, 0}, std::array<double, 2>{0, 0}, std::vector<double>{0, 1, s2, -3, 1e-8, 10, -1e3, s2 * (1 + 1e-12), 1e-14}),
         // x^2 + 1: minimiser x = 0 has J = 0 and residual 1
-        std::make_shared<const Poly1>("x2+1", std::array<double, 4>{1, 0, 1, 0}, std::array<double, 2>{0, 0}, std::vector<double>{0, 1, -1e-3, 5, 1e-8, -40}),
+        std::make_shared<const Poly1>("x2+1", std::array<double, 4>{1, 0, 1, 0}, std::array<double, 2>{0, 0}, std::vector<double>{0, 1, -1e-3, 5, 1e-8, -40, 1e-14, -3e-11}),
         // (x^3 - x, x - 1/2)
         std::make_shared<const Poly1>("cubic", std::array<double, 4>{0, -1, 0, 1}, std::array<double, 2>{-0.5, 1}, std::vector<double>{0, 1, 0.5, -1, 0.5773502691896258, 3, -10}),
         // (x^2 - 1, 0.1 (x - 2)): non-zero residual at the minimiser
